@@ -652,9 +652,9 @@ def rule_r6(chk, p, t, rid="C14.R6"):
         r.error("mask-config-sites", f"{n_kw} configuration-to-mask keyword sites found (4 confirmed by hand)")
 
 
-def rule_r5(chk, p, t):
+def rule_r5(chk, p, t, rid="C14.R5"):
     r = chk.rule(
-        "C14.R5",
+        rid,
         "visible-Sun fraction case structure",
         2,
         "the visible fraction is 1 on the sunward side, 0 when the apparent separation is below |b - a| (umbra), the "
